@@ -509,6 +509,55 @@ def chain_history(rng, hid, n=40, params=None, stride=None):
     return h
 
 
+def widen_mutate_widen_history(rng, hid, params=None):
+    """directed family (C05 / C16): the RESULT of a widening is mutated in place (join with a state outside it, forget,
+    set_to_top, assign, assume) and then used as the LEFT operand of another widening; wrappers that cache the
+    un-normalised widening result must drop the cache when the value is mutated."""
+    ints = [1, 2, 3]
+    vars_ = [{"n": "x", "t": "int"}, {"n": "y", "t": "int"}, {"n": "z", "t": "int"}, {"n": "b4", "t": "bool"}]
+    pt = lambda r, v, k: {"op": "stmt", "r": r, "s": {"op": "assign", "x": v, "e": {"k": k, "t": []}}}
+    steps = []
+    a = {v: rng.randint(-1, 1) for v in ints}
+    for v in ints:
+        steps.append(pt(1, v, a[v]))
+        steps.append(pt(2, v, a[v] + rng.choice([0, 1, 1, -1])))
+    w = {"op": rng.choice(["widen", "widenjoin"]), "r": 3, "a": 1, "b": 2}
+    if rng.random() < 0.3:
+        w["ts"] = sorted(rng.sample(range(-3, 4), rng.randint(1, 2)))
+    steps.append(w)
+    for _ in range(rng.randint(1, 2)):
+        m = rng.choice(["joinin", "joinin", "forget", "top", "assign", "assume", "havoc"])
+        if m == "joinin":       # join, in place, with a state outside the widened value
+            v = rng.choice(ints)
+            for u in ints:
+                steps.append(pt(2, u, a[u] - 2 if u == v else a[u]))
+            steps.append({"op": "join", "r": 3, "a": 3, "b": 2, "inplace": 1})
+        elif m == "forget":
+            steps.append({"op": "forget", "r": 3, "vs": [rng.choice(ints)]})
+        elif m == "top":
+            steps.append({"op": "top", "r": 3, "inplace": 1})
+        elif m == "assign":
+            steps.append(pt(3, rng.choice(ints), rng.randint(-2, 2)))
+        elif m == "assume":
+            steps.append({"op": "stmt", "r": 3, "s": {"op": "assume", "c": cst(rng, ints, rels=("le", "le", "eq"), maxterms=1)}})
+        else:
+            steps.append({"op": "stmt", "r": 3, "s": {"op": "havoc", "x": rng.choice(ints)}})
+    if rng.random() < 0.3:
+        steps.append({"op": "query", "r": 3})
+    for v in ints:
+        steps.append(pt(2, v, a[v] + rng.choice([1, 2, -1])))
+    tgt = rng.choice([3, 3, 1])
+    w2 = {"op": rng.choice(["widen", "widen", "widenjoin"]), "r": tgt, "a": 3, "b": 2}
+    if "ts" in w and rng.random() < 0.5:
+        w2["ts"] = w["ts"]
+    steps.append(w2)
+    steps.append({"op": "leq", "r": 0, "a": 2, "b": tgt})
+    h = {"id": hid, "vars": vars_, "nregs": 3, "steps": steps, "stutter": 0}
+    if params:
+        h["params"] = params
+    return h
+
+
 def plain_chain_history(rng, hid, n=110, params=None):
     """C05: acc (register 1) is repeatedly widened with ARBITRARY further values (not joined with acc first):
          r2 := top; bounds for a subset of the variables; r3 := r1 widen r2 [thresholds]; leq(r3, r1); r1 := r3
